@@ -11,8 +11,12 @@ def build(tier, seed):
     J = []
     for sh, lv in shapes(tier):
         J.append(repairgen.job('C01', sh, lv, timeout=1800 if tier == 'quick' else 7200))
+    # reduced hash size and a hash migration in progress (previous hash kind and seed still in use on the stripe)
+    J.append(repairgen.job('C01', ['BLKbad', 'BLK'], 1, hash_size=8, timeout=1800 if tier == 'quick' else 7200))
+    J.append(repairgen.job('C01', ['BLKbad', 'BLK'], 1, rehash=1, timeout=1800 if tier == 'quick' else 7200))
     if tier != 'quick':
         J.append(repairgen.job('C01', ['BLKbad', 'BLK'], 2, hash_size=8, timeout=7200))
+        J.append(repairgen.job('C01', ['BLKbad', 'BLKbad'], 2, rehash=1, timeout=7200))
     J.append(repairgen.job('C01', ['BLKbad', 'BLK'], 1, kind='negctl'))
     return dict(jobs=J, bounds={'data disks': '2-3', 'parity levels': '1-2 quick, 1-3 thorough', 'block': 64, 'stripes': 1},
         assumptions=['block hash = injective uninterpreted function (collision-freeness is an assumption of the property)', 'parity of the pre-state produced by the real raid_gen (its equality with the definition is C02)',
